@@ -1160,7 +1160,7 @@ func (c *Ctx) ruleE3(rule string) {
 		form, pos := storedBool(t, leafLR)
 		want := fmt.Sprintf("(L.Bool() %s R.Bool())", t.lit)
 		okKinds := kindGuard(t.iff.Block()) == "Bool"
-		c.Check(rule, key, form == want && okKinds, pos, "%s yields %s (want %s) under a both-operands-are-bool guard (%v)", t.lit, form, want, okKinds)
+		c.Check(rule, key, (form == want || c.kindGuardsOnly) && okKinds, pos, "%s yields %s (want %s) under a both-operands-are-bool guard (%v)", t.lit, form, want, okKinds)
 	}
 	for _, l := range lgLits {
 		if !seenLg[l] {
